@@ -192,7 +192,8 @@ theorem phaseExt_threw_ext {relaxed : Bool} {c : Cfg} {e : Rej} {o : Bytes} (m :
 
 theorem phaseExt_ret_ext {relaxed : Bool} {c c' : Cfg} (m : Bytes) (h : phaseExt relaxed c = .retFalse c') :
     c'.st = c.st ∧ c.st.stage = .ext ∧ c'.out = c.out ∧ c'.space = c.space ∧ c'.buf.length ≤ c.buf.length ∧
-    (phaseExt relaxed (c.ext m) = phaseExt relaxed (c'.ext m) ∨ phaseExt relaxed (c.ext m) = .threw .extCrlf c.out) := by
+    (phaseExt relaxed (c.ext m) = phaseExt relaxed (c'.ext m) ∨
+      (ChunkedSets.extCommit = true ∧ phaseExt relaxed (c.ext m) = .threw .extCrlf c.out)) := by
   unfold phaseExt at h
   by_cases hs : c.st.stage = .ext
   · simp only [hs, if_true] at h
@@ -207,7 +208,7 @@ theorem phaseExt_ret_ext {relaxed : Bool} {c c' : Cfg} (m : Bytes) (h : phaseExt
       simp only [Cfg.ext_st, hs, if_true, Cfg.ext_buf]
       rcases metaSuffix_need_restart hm m with heq | hbad
       · left; rw [heq]; rfl
-      · right; rw [hbad]; rfl
+      · right; refine ⟨hbad.1, ?_⟩; rw [hbad.2]; rfl
   · simp [hs] at h
 
 /-! ### chunk data with unlimited payload space -/
